@@ -125,4 +125,42 @@ theorem model_decision_is_source_decision (st : Nat) (h : st < 2 ^ 64) :
 
 end FindLoop
 
+/-! ## `TreeBin::find`: the tree is searched only under the read lock
+
+`Proto/BinU` / `BinK` / `BinT`: a lock-protocol reader takes the read lock (`rCas`), searches the
+tree (`rTree`), releases (`rRelease`); a writer restructures the tree only while no reader holds the
+read lock. The search starts at `root`, which rotations and removals of the root node change — so the
+load of `root` belongs inside the read lock like every other tree link. Regenerated from the source:
+the accesses of `TreeBin::find` to the bin's words and the call of the tree search, in source order. -/
+section FindOrder
+open Flurry.Gen
+
+def idxOf (x : String) (l : List String) : Nat := l.findIdx (· == x)
+
+/-- every load of `root` and every call of the tree search stands after the reader CAS and before
+the release of the read lock (the `fetch_add(-READER)`), and both of those are there -/
+def treeSearchedUnderReadLock (o : List String) : Bool :=
+  let cas := idxOf "cas:lock_state" o
+  let rel := idxOf "rmw:lock_state" o
+  cas < o.length && rel < o.length && cas < rel &&
+  (List.range o.length).all fun i =>
+    let x := o.getD i ""
+    if x == "load:root" || x == "call:find_tree_node" || x == "load:left" || x == "load:right" || x == "load:parent"
+    then cas < i && i < rel else true
+
+theorem find_searches_tree_under_read_lock : treeSearchedUnderReadLock treeBinFindOrder = true := by decide
+
+/-- the reader never writes a list cell or a tree link: its only accesses are loads, the tree search,
+and the CAS / fetch-add on the lock word -/
+theorem find_writes_nothing_but_the_lock_word :
+    treeBinFindOrder.all (fun x => ["load:first", "load:lock_state", "load:next", "load:root", "load:waiter", "load:left",
+      "load:right", "load:parent", "call:find_tree_node", "cas:lock_state", "rmw:lock_state"].contains x) = true := by
+  decide
+
+-- non-vacuity: the search and the root load are in the table; a root loaded before the CAS is rejected
+example : treeBinFindOrder.contains "load:root" = true ∧ treeBinFindOrder.contains "call:find_tree_node" = true := by decide
+example : treeSearchedUnderReadLock ["load:root", "load:first", "load:lock_state", "load:next", "cas:lock_state",
+    "call:find_tree_node", "rmw:lock_state", "load:waiter"] = false := by decide
+end FindOrder
+
 end Flurry.C12
